@@ -2,7 +2,12 @@ import RimeModel.Basic.Hex
 import RimeModel.C06.Compile
 import RimeModel.C06.Layout
 /-! line protocol for C06 (see checks/C06.py):
-  case <name> / sort <original|by_weight> / file <textcol> <codecol> <weightcol> <hex body> ... / run
+  case <name> / sort <original|by_weight> / [fixed <hex,hex,...|->] / file <textcol> <codecol> <weightcol> <hex body> ...
+  / [derived <hex body>] / run
+  `derived`: the `CreateEntry` calls the phrase encoder makes in `EntryCollector::Finish` (text, code, weight column, default
+  layout), computed by the check's reference encoder: they follow the rows of all files; with it rows without a code are allowed.
+  `fixed`: the collector of a pack starts from this syllabary and learns nothing (`build_syllabary = false`): a row with a
+  syllable outside it is dropped before anything else happens to it.
 → case <name> / syl <id> <hex> / e <index ids> <extra ids|-> <texthex> <weight> / r <keyhex> <valhex> / end <name>
 -/
 open RimeModel RimeModel.C06
@@ -11,6 +16,9 @@ structure St where
   name : String := ""
   original : Bool := false
   rows : List RawRow := []
+  derived : List RawRow := []
+  allowEncoder : Bool := false
+  fixed : Option (List Bytes) := none
 
 def optCol (s : String) : Option (Option Nat) :=
   if s == "-1" then some none else s.toNat?.map some
@@ -20,8 +28,11 @@ def ids (l : List Nat) : String :=
 
 def runCase (st : St) (out : IO.FS.Stream) : IO Unit := do
   out.putStrLn s!"case {st.name}"
-  let c := collect st.rows
-  if c.needEncoder != 0 then
+  let all : List RawRow := st.rows ++ st.derived
+  let c := match st.fixed with
+    | none => collect all
+    | some syl => collectPack syl all
+  if c.needEncoder != 0 && !st.allowEncoder then
     out.putStrLn "unsupported rows-without-code"
   else
     let syl := c.syllabary
@@ -53,6 +64,15 @@ partial def loop (h : IO.FS.Stream) (out : IO.FS.Stream) (st : St) : IO Unit := 
     | some tc, some cc, some wc, some b =>
       loop h out { st with rows := st.rows ++ parseFile { text := tc, code := cc, weight := wc } b }
     | _, _, _, _ => do out.putStrLn "bad-op"; loop h out st
+  | ["derived", body] =>
+    match Hex.decode body with
+    | some b => loop h out { st with allowEncoder := true,
+                                     derived := st.derived ++ parseFile { text := some 0, code := some 1, weight := some 2 } b }
+    | none => do out.putStrLn "bad-op"; loop h out st
+  | ["fixed", syl] =>
+    match (if syl == "-" then some [] else (syl.splitOn ",").mapM Hex.decode) with
+    | some l => loop h out { st with fixed := some l }
+    | none => do out.putStrLn "bad-op"; loop h out st
   | ["run"] => do runCase st out; loop h out {}
   | _ => do out.putStrLn "bad-op"; loop h out st
 
